@@ -72,3 +72,14 @@ Theorem C18_request_handlers_are_the_sources : forall k m c vr s,
   HandlerEq.same_run (Node.run (GenHandlers.gen_recordAcceptedValidationEvents c vr) s) (Node.run (Node.record_accepted c vr) s).
 Proof. exact HandlerEq.request_handlers_are_source. Qed.
 Print Assumptions C18_request_handlers_are_the_sources.
+
+(* opening a channel as written in Node.v (a fresh id from the counter, the request built from the caller's
+   voucher, base CID and selector, the record created and opened before anything leaves the node, the peer
+   protected, the request sent over the network for a push and handed to the transport for a pull, a failed send
+   failing the channel) runs, for every interpreter state, like the programs regenerated from impl/impl.go
+   OpenPushDataChannel / OpenPullDataChannel: same error class, same state and outputs, same channel id *)
+Theorem C18_opening_calls_are_the_sources : forall to v b sel s,
+  HandlerEq.same_open (Node.run (Node.bind (Node.exec Node.ISelf) (fun self => GenHandlers.gen_OpenPushDataChannel self to v b sel)) s) (Node.run (Node.open_channel Node.DPush to v b sel) s) /\
+  HandlerEq.same_open (Node.run (Node.bind (Node.exec Node.ISelf) (fun self => GenHandlers.gen_OpenPullDataChannel self to v b sel)) s) (Node.run (Node.open_channel Node.DPull to v b sel) s).
+Proof. exact HandlerEq.opening_calls_are_source. Qed.
+Print Assumptions C18_opening_calls_are_the_sources.
